@@ -273,44 +273,38 @@ Qed.
 Lemma m_not_ws : is_ws "m" = false.
 Proof. reflexivity. Qed.
 
+Ltac unf_attr := cbn [run eval_e eval_c rbind as_str_method].
+
 Lemma canon_delay : forall pf a p, In p (canon KDelay a) -> spec_delay pf (fun attrs => run pf attrs p) a.
 Proof.
-  intros pf a p [<-|[]]. split.
-  - intros attrs num ws Hn Hw H. rewrite <- (append_assoc num ws "ms") in H. start_attr H.
-    rewrite contains_app_end.
-    cbn [run eval_e eval_c rbind as_str_method]. rewrite ?H. cbn [rbind as_str_method].
-    rewrite drop_last_ms.
-    rewrite strip_app_ws by assumption. reflexivity.
-  - intros attrs num ws Hn Hw Hm H. rewrite <- (append_assoc num ws "s") in H. start_attr H.
-    assert (N : no_char "m" ((num ++ ws) ++ "s") = true).
-    { rewrite !no_char_app, Hm, (all_ws_no_char "m" ws m_not_ws Hw). reflexivity. }
-    rewrite (contains_ms_nochar _ N). cbn [run eval_e eval_c rbind as_str_method]. rewrite ?H.
-    cbn [rbind as_str_method].
-    rewrite contains_app_end.
-    cbn [run eval_e eval_c rbind as_str_method]. rewrite ?H. cbn [rbind as_str_method].
-    rewrite drop_last_s.
-    rewrite strip_app_ws by assumption. unfold float_res_k. cbn [py_float_of].
-    destruct (pf num); reflexivity.
+  intros pf a p [<-|[<-|[]]];
+  (split;
+   [ intros attrs num ws Hn Hw H; rewrite <- (append_assoc num ws "ms") in H; start_attr H;
+     rewrite contains_app_end; unf_attr; rewrite ?H; cbn [rbind as_str_method];
+     rewrite drop_last_ms; rewrite strip_app_ws by assumption; reflexivity
+   | intros attrs num ws Hn Hw Hm H; rewrite <- (append_assoc num ws "s") in H; start_attr H;
+     assert (N : no_char "m" ((num ++ ws) ++ "s") = true)
+       by (rewrite !no_char_app, Hm, (all_ws_no_char "m" ws m_not_ws Hw); reflexivity);
+     rewrite (contains_ms_nochar _ N); unf_attr; rewrite ?H; cbn [rbind as_str_method];
+     rewrite contains_app_end; unf_attr; rewrite ?H; cbn [rbind as_str_method];
+     rewrite drop_last_s; rewrite strip_app_ws by assumption; unfold float_res_k; cbn [py_float_of];
+     destruct (pf num); reflexivity ]).
 Qed.
 
 Lemma canon_parse_delay : forall pf a p, In p (canon KParseDelay a) -> spec_delay pf (fun attrs => run pf attrs p) a.
 Proof.
-  intros pf a p [<-|[]]. split.
-  - intros attrs num ws Hn Hw H. rewrite <- (append_assoc num ws "ms") in H. start_attr H.
-    rewrite endswith_app.
-    cbn [run eval_e eval_c rbind as_str_method]. rewrite ?H. cbn [rbind as_str_method].
-    rewrite drop_last_ms.
-    rewrite strip_app_ws by assumption. reflexivity.
-  - intros attrs num ws Hn Hw Hm H. rewrite <- (append_assoc num ws "s") in H. start_attr H.
-    assert (N : no_char "m" (num ++ ws) = true).
-    { rewrite no_char_app, Hm, (all_ws_no_char "m" ws m_not_ws Hw). reflexivity. }
-    rewrite (endswith_ms_s _ N).
-    cbn [run eval_e eval_c rbind as_str_method]. rewrite ?H. cbn [rbind as_str_method].
-    rewrite endswith_app.
-    cbn [run eval_e eval_c rbind as_str_method]. rewrite ?H. cbn [rbind as_str_method].
-    rewrite drop_last_s.
-    rewrite strip_app_ws by assumption. unfold float_res_k. cbn [py_float_of].
-    destruct (pf num); reflexivity.
+  intros pf a p [<-|[<-|[]]];
+  (split;
+   [ intros attrs num ws Hn Hw H; rewrite <- (append_assoc num ws "ms") in H; start_attr H;
+     rewrite endswith_app; unf_attr; rewrite ?H; cbn [rbind as_str_method];
+     rewrite drop_last_ms; rewrite strip_app_ws by assumption; reflexivity
+   | intros attrs num ws Hn Hw Hm H; rewrite <- (append_assoc num ws "s") in H; start_attr H;
+     assert (N : no_char "m" (num ++ ws) = true)
+       by (rewrite no_char_app, Hm, (all_ws_no_char "m" ws m_not_ws Hw); reflexivity);
+     rewrite (endswith_ms_s _ N); unf_attr; rewrite ?H; cbn [rbind as_str_method];
+     rewrite endswith_app; unf_attr; rewrite ?H; cbn [rbind as_str_method];
+     rewrite drop_last_s; rewrite strip_app_ws by assumption; unfold float_res_k; cbn [py_float_of];
+     destruct (pf num); reflexivity ]).
 Qed.
 
 Lemma canon_weight : forall pf a p, In p (canon KWeight a) -> spec_weight (fun attrs => run pf attrs p) a.
@@ -365,6 +359,140 @@ Proof.
   unfold entry_ok in H. destruct (lookup t c m) as [p|]; [|discriminate].
   exists p. split; [reflexivity|]. apply existsb_exists in H. destruct H as [q [Hq E]].
   apply sprog_eqb_eq in E. subst. apply canon_sound. assumption.
+Qed.
+
+(* ------------------------------------------------------------------ the same, spelled out for NeuroML ids *)
+Lemma lbr_not_id : is_id_char ch_lbr = false. Proof. reflexivity. Qed.
+Lemma slash_not_id : is_id_char ch_slash = false. Proof. reflexivity. Qed.
+
+Section Readable.
+  Variable pf : string -> option Q.
+  Variable t : acc_table.
+  Hypothesis T : table_ok t = true.
+
+  (* every cell-index accessor: both reference forms, any population id, any index, any component id *)
+  Theorem cell_index_of_reference : forall c m a, In (c, m, KCellIdPath, a) expected ->
+    exists p, lookup t c m = Some p
+    /\ (forall attrs pop i comp, nmlid pop = true -> nmlid comp = true ->
+          attrs a = VStr ("../" ++ pop ++ "/" ++ dec i ++ "/" ++ comp) -> run pf attrs p = Ok (VInt (Z.of_N i)))
+    /\ (forall attrs pop i, nmlid pop = true ->
+          attrs a = VStr (pop ++ "[" ++ dec i ++ "]") -> run pf attrs p = Ok (VInt (Z.of_N i)))
+    /\ (forall attrs pop i, nmlid pop = true ->
+          attrs a = VStr ("../" ++ pop ++ "[" ++ dec i ++ "]") -> run pf attrs p = Ok (VInt (Z.of_N i))).
+  Proof.
+    intros c m a HI. destruct (table_sound pf t T c m _ a HI) as [p [L [S1 S2]]]. exists p. split; [exact L|]. repeat split.
+    - intros attrs pop i comp Hp Hc H.
+      apply (S2 attrs pop i ("/" ++ comp)); try (apply nmlid_no_char; [reflexivity | assumption]).
+      + change ("/" ++ comp) with (String ch_slash comp). rewrite no_char_cons.
+        rewrite (nmlid_no_char ch_lbr comp lbr_not_id Hc). reflexivity.
+      + right. exists comp. reflexivity.
+      + exact H.
+    - intros attrs pop i Hp H. apply (S1 attrs pop i ""); [apply nmlid_no_char; [reflexivity | assumption] | reflexivity | exact H].
+    - intros attrs pop i Hp H. apply (S1 attrs ("../" ++ pop) i "").
+      + rewrite no_char_app. rewrite (nmlid_no_char ch_lbr pop lbr_not_id Hp). reflexivity.
+      + reflexivity.
+      + rewrite append_assoc. exact H.
+  Qed.
+
+  Theorem population_of_reference : forall c m a, In (c, m, KPopulation, a) expected ->
+    exists p, lookup t c m = Some p
+    /\ (forall attrs pop i comp, nmlid pop = true -> nmlid comp = true ->
+          attrs a = VStr ("../" ++ pop ++ "/" ++ dec i ++ "/" ++ comp) -> run pf attrs p = Ok (VStr pop))
+    /\ (forall attrs pop i, nmlid pop = true ->
+          attrs a = VStr (pop ++ "[" ++ dec i ++ "]") -> run pf attrs p = Ok (VStr pop))
+    /\ (forall attrs pop i, nmlid pop = true ->
+          attrs a = VStr ("../" ++ pop ++ "[" ++ dec i ++ "]") -> run pf attrs p = Ok (VStr pop)).
+  Proof.
+    intros c m a HI. destruct (table_sound pf t T c m _ a HI) as [p [L [S1 [S2 S3]]]]. exists p. split; [exact L|]. repeat split.
+    - intros attrs pop i comp Hp Hc H.
+      apply (S3 attrs pop (dec i ++ "/" ++ comp)); try (apply nmlid_no_char; [reflexivity | assumption]); [|exact H].
+      rewrite no_char_app. rewrite (dec_no_char ch_lbr i) by reflexivity.
+      change ("/" ++ comp) with (String ch_slash comp). rewrite no_char_cons.
+      rewrite (nmlid_no_char ch_lbr comp lbr_not_id Hc). reflexivity.
+    - intros attrs pop i Hp H. apply (S1 attrs pop (dec i ++ "]")); try (apply nmlid_no_char; [reflexivity | assumption]). exact H.
+    - intros attrs pop i Hp H. apply (S2 attrs pop (dec i ++ "]")); try (apply nmlid_no_char; [reflexivity | assumption]). exact H.
+  Qed.
+
+  (* delays: "<num><ws>ms" is float(num); "<num><ws>s" is 1000 * float(num); whatever float() makes of num *)
+  Theorem delay_in_ms : forall c m k a, (k = KDelay \/ k = KParseDelay) -> In (c, m, k, a) expected ->
+    exists p, lookup t c m = Some p
+    /\ (forall attrs num ws, no_ws num = true -> all_ws ws = true ->
+          attrs a = VStr (num ++ ws ++ "ms") -> run pf attrs p = float_res pf num)
+    /\ (forall attrs num ws, no_ws num = true -> all_ws ws = true -> no_char "m" num = true ->
+          attrs a = VStr (num ++ ws ++ "s") -> run pf attrs p = float_res_k pf num).
+  Proof.
+    intros c m k a Hk HI. destruct (table_sound pf t T c m k a HI) as [p [L S]]. exists p. split; [exact L|].
+    destruct Hk; subst; exact S.
+  Qed.
+
+  (* unset fields give the documented defaults; set fields are returned as they are (0 and 0.0 included) *)
+  Theorem defaults_when_unset :
+    (forall c m a, In (c, m, KSegDefault, a) expected -> exists p, lookup t c m = Some p
+        /\ (forall attrs, attrs a = VNone -> run pf attrs p = Ok (VInt 0))
+        /\ (forall attrs z, attrs a = VInt z -> run pf attrs p = Ok (VInt z)))
+    /\ (forall c m a, In (c, m, KFractDefault, a) expected -> exists p, lookup t c m = Some p
+        /\ (forall attrs, attrs a = VNone -> run pf attrs p = Ok (VFloat (1 # 2)))
+        /\ (forall attrs q, attrs a = VFloat q -> run pf attrs p = Ok (VFloat q)))
+    /\ (forall c m a, In (c, m, KWeight, a) expected -> exists p, lookup t c m = Some p
+        /\ (forall attrs, attrs a = VNone -> run pf attrs p = Ok (VFloat (1 # 1)))
+        /\ (forall attrs q, attrs a = VFloat q -> run pf attrs p = Ok (VFloat q))).
+  Proof.
+    repeat split; intros c m a HI.
+    - destruct (table_sound pf t T c m _ a HI) as [p [L [S1 S2]]]. exists p. repeat split; assumption.
+    - destruct (table_sound pf t T c m _ a HI) as [p [L [S1 S2]]]. exists p. repeat split; assumption.
+    - destruct (table_sound pf t T c m _ a HI) as [p [L [S1 [S2 S3]]]]. exists p. repeat split; assumption.
+  Qed.
+
+  Theorem segment_and_fraction_of_connections :
+    (forall c m a, In (c, m, KIntOf, a) expected -> exists p, lookup t c m = Some p
+        /\ (forall attrs z, attrs a = VInt z -> run pf attrs p = Ok (VInt z))
+        /\ (forall attrs n, attrs a = VStr (dec n) -> run pf attrs p = Ok (VInt (Z.of_N n))))
+    /\ (forall c m a, In (c, m, KFloatOf, a) expected -> exists p, lookup t c m = Some p
+        /\ (forall attrs q, attrs a = VFloat q -> run pf attrs p = Ok (VFloat q))
+        /\ (forall attrs s, attrs a = VStr s -> run pf attrs p = float_res pf s)).
+  Proof.
+    split; intros c m a HI.
+    - destruct (table_sound pf t T c m _ a HI) as [p [L [S1 S2]]]. exists p. repeat split; assumption.
+    - destruct (table_sound pf t T c m _ a HI) as [p [L [S1 [S2 S3]]]]. exists p. repeat split; assumption.
+  Qed.
+End Readable.
+
+(* with the concrete decimal reading of float(): whole-number delays and bare-numeral cell references *)
+Theorem delay_whole_numbers : forall t, table_ok t = true -> forall c m k a, (k = KDelay \/ k = KParseDelay) -> In (c, m, k, a) expected ->
+  exists p, lookup t c m = Some p
+  /\ (forall attrs n ws, all_ws ws = true -> attrs a = VStr (dec n ++ ws ++ "ms") ->
+        run py_float attrs p = Ok (VFloat (inject_Z (Z.of_N n))))
+  /\ (forall attrs n ws, all_ws ws = true -> attrs a = VStr (dec n ++ ws ++ "s") ->
+        run py_float attrs p = Ok (VFloat (inject_Z (Z.of_N n) * (1000 # 1))%Q)).
+Proof.
+  intros t T c m k a Hk HI. destruct (delay_in_ms py_float t T c m k a Hk HI) as [p [L [S1 S2]]].
+  exists p. split; [exact L|]. split.
+  - intros attrs n ws Hw H. rewrite (S1 attrs (dec n) ws (digits_no_ws _ (dec_digits n)) Hw H).
+    unfold float_res. rewrite py_float_dec. reflexivity.
+  - intros attrs n ws Hw H.
+    rewrite (S2 attrs (dec n) ws (digits_no_ws _ (dec_digits n)) Hw (dec_no_char "m" n eq_refl) H).
+    unfold float_res_k. rewrite py_float_dec. reflexivity.
+Qed.
+
+Theorem plain_cell_index : forall t, table_ok t = true -> forall c m a, In (c, m, KCellIdPlain, a) expected ->
+  exists p, lookup t c m = Some p
+  /\ (forall attrs i, attrs a = VStr (dec i) -> run py_float attrs p = Ok (VInt (Z.of_N i)))
+  /\ (forall attrs z, attrs a = VInt z -> run py_float attrs p = Ok (VInt z)).
+Proof.
+  intros t T c m a HI. destruct (table_sound py_float t T c m _ a HI) as [p [L [S1 S2]]]. exists p. split; [exact L|]. split.
+  - intros attrs i H. apply S1; [apply py_float_dec | exact H].
+  - exact S2.
+Qed.
+
+Theorem population_size : forall pf t, table_ok t = true ->
+  exists p, lookup t "Population" "get_size" = Some p
+  /\ (forall attrs n, (0 < n)%N -> attrs "instances" = VList n -> run pf attrs p = Ok (VInt (Z.of_N n)))
+  /\ (forall attrs z, attrs "instances" = VList 0 -> attrs "size" = VInt z -> run pf attrs p = Ok (VInt z))
+  /\ (forall attrs, attrs "instances" = VList 0 -> attrs "size" = VNone -> run pf attrs p = Ok (VInt 0)).
+Proof.
+  intros pf t T.
+  assert (HI : In ("Population", "get_size", KGetSize, "") expected) by (vm_compute; tauto).
+  destruct (table_sound pf t T _ _ _ _ HI) as [p [L S]]. exists p. split; [exact L | exact S].
 Qed.
 
 (* ------------------------------------------------------------------ the summary's totals, for every network *)
